@@ -354,7 +354,7 @@ func VerifC15BreakpointBook() {
 	zz.Assert(same, "C15.suspends-exactly-at-the-breakpoints-left-active-by-the-commands")
 }
 
-var c15ConsoleCmds = []string{"break t:2", "disablebreak t:2", "rmbreak t:2", "rmbreak t", "status", "describe 7", "breakonstart false", "lockstate", "break u:1"}
+var c15ConsoleCmds = []string{"break t:2", "disablebreak t:2", "rmbreak t:2", "rmbreak t", "status", "describe 7", "breakonstart false", "lockstate", "break u:1", "cont 7 resume", "cont 7 stepover"}
 
 // VerifC15ConsoleRaces: a debug console (its own goroutine, as in the debug server) issues commands while a program
 // thread runs: unsynchronised access of the two to the debugger's own bookkeeping (the breakpoint table, flags, thread
@@ -379,7 +379,11 @@ func VerifC15ConsoleRaces() {
 	c1 := zz.Choice("command1", len(c15ConsoleCmds))
 	c2 := zz.Choice("command2", len(c15ConsoleCmds))
 	zz.ReportHeapRaces()
-	zz.ScheduleEraser(zz.Param("P", 1))
+	if zz.Param("SYNC", 0) == 1 {
+		zz.Schedule(zz.Param("P", 1)) // every sync operation is a pre-emption point: lock-order and read-lock re-entry deadlocks
+	} else {
+		zz.ScheduleEraser(zz.Param("P", 1))
+	}
 	var wg sync.WaitGroup
 	wg.Add(2)
 	go func() {
